@@ -1,1 +1,3 @@
 //! Proof-system layer checks (C01–C03, C12 domain part, C14, C17): shared engines.
+pub mod e1;
+pub mod pv;
